@@ -6,8 +6,9 @@ set -u
 TIER="${2:-quick}"
 SEED="${VERIF_SEED:-1}"
 ROOT="$(cd "$(dirname "$0")/.." && pwd)"
+OUT="${VERIF_OUT:-$ROOT}"
 WORK="$ROOT/work/c18-$$"
-mkdir -p "$WORK" "$ROOT/replays" "$ROOT/evidence"
+mkdir -p "$WORK" "$OUT/replays" "$OUT/evidence"
 export CARGO_NET_OFFLINE=true
 T0=$(date +%s.%N)
 if [ "$TIER" = thorough ]; then NATIVE_CALLS=30000000; TSAN_CALLS=3000000; else NATIVE_CALLS=3000000; TSAN_CALLS=300000; fi
@@ -16,7 +17,7 @@ if [ "$TIER" = thorough ]; then NATIVE_CALLS=30000000; TSAN_CALLS=3000000; else 
 STATIC=ok
 if ! (cd "$ROOT/sanit/sendsync" && cargo build --offline --target-dir "$ROOT/target-stress" >"$WORK/static.log" 2>&1); then
   if grep -q "cannot be sent between threads\|cannot be shared between threads\|Clone.*is not satisfied\|E0277" "$WORK/static.log"; then
-    STATIC=violated; cp "$WORK/static.log" "$ROOT/replays/C18-$TIER-static.txt"
+    STATIC=violated; cp "$WORK/static.log" "$OUT/replays/C18-$TIER-static.txt"
   else
     STATIC=buildfail
   fi
@@ -45,7 +46,7 @@ if (cd "$ROOT/sanit/stress" && RUSTFLAGS="-Zsanitizer=thread" cargo +nightly bui
   TSAN_OPTIONS="halt_on_error=1 exitcode=66 log_path=$WORK/tsan-report" "$TSAN_BIN" tsan $TSAN_CALLS $SEED "$WORK/tsan.json" 2>"$WORK/tsan.err"; rc=$?
   case $rc in
     0) TSAN=ok ;;
-    66) TSAN=violated; cat "$WORK"/tsan-report* "$WORK/tsan.err" > "$ROOT/replays/C18-$TIER-tsan.txt" 2>/dev/null ;;
+    66) TSAN=violated; cat "$WORK"/tsan-report* "$WORK/tsan.err" > "$OUT/replays/C18-$TIER-tsan.txt" 2>/dev/null ;;
     1) TSAN=mismatch ;;
     3) TSAN=watchdog ;;
     *) TSAN=error$rc ;;
@@ -70,8 +71,8 @@ if [ "$TIER" = thorough ]; then
     for s in $(seq 0 15); do
       rc=$(cat "$WORK/miri-$s.rc" 2>/dev/null || echo 99)
       if [ "$rc" != 0 ]; then
-        if grep -q "Undefined Behavior\|Data race\|data race" "$WORK/miri-$s.log"; then MIRI=violated; cp "$WORK/miri-$s.log" "$ROOT/replays/C18-$TIER-miri.txt"; break
-        elif [ "$rc" = 1 ]; then MIRI=mismatch; cp "$WORK/miri-$s.json" "$ROOT/replays/C18-$TIER-miri.txt" 2>/dev/null; break
+        if grep -q "Undefined Behavior\|Data race\|data race" "$WORK/miri-$s.log"; then MIRI=violated; cp "$WORK/miri-$s.log" "$OUT/replays/C18-$TIER-miri.txt"; break
+        elif [ "$rc" = 1 ]; then MIRI=mismatch; cp "$WORK/miri-$s.json" "$OUT/replays/C18-$TIER-miri.txt" 2>/dev/null; break
         else MIRI=error$rc; fi
       fi
     done
@@ -81,7 +82,7 @@ if [ "$TIER" = thorough ]; then
 fi
 
 T1=$(date +%s.%N)
-python3 "$ROOT/sanit/c18_evidence.py" "$ROOT" "$WORK" "$TIER" "$SEED" "$STATIC" "$NATIVE" "$TSAN" "$MIRI" "$(echo "$T1 - $T0" | bc)"
+python3 "$ROOT/sanit/c18_evidence.py" "$OUT" "$WORK" "$TIER" "$SEED" "$STATIC" "$NATIVE" "$TSAN" "$MIRI" "$(echo "$T1 - $T0" | bc)"
 rc=$?
 rm -rf "$WORK"
 exit $rc
